@@ -457,3 +457,16 @@ func describe(w *World, vs []ssa.Value) string {
 	}
 	return "{" + strings.Join(s, ", ") + "}"
 }
+
+// isMainType: t (possibly behind pointers) is a named type declared in the analysed package.
+func (w *World) isMainType(t types.Type) bool {
+	for {
+		if p, ok := t.(*types.Pointer); ok {
+			t = p.Elem()
+			continue
+		}
+		break
+	}
+	n, ok := t.(*types.Named)
+	return ok && n.Obj().Pkg() != nil && n.Obj().Pkg() == w.Main.Pkg
+}
